@@ -46,8 +46,10 @@ struct QsHarness : HarnessBase {
 		unsigned char pending[MAXA][MAXN] = {};     // 1 = registered, 2 = fired
 		unsigned char need[MAXA][MAXN] = {};        // bitmask of agents that still have to pass a quiescent state
 		int running = -1;                           // agent currently inside run()
+		unsigned char reused[MAXA] = {};            // a fired node of this agent has been registered again (at most once per agent)
 	} r;
-	QsHarness(int na, int nn) : NA(na), NN(nn) {}
+	bool reuse = false;   // alphabet includes handing a node whose callback has fired back to await_barrier() as it is
+	QsHarness(int na, int nn, bool reuse_ = false) : NA(na), NN(nn), reuse(reuse_) {}
 	const char *prop() const { return "C11"; }
 	Domain &dom() { return *reinterpret_cast<Domain *>(w.dom); }
 	Agent &agent(int i) { return *reinterpret_cast<Agent *>(w.agents[i]); }
@@ -73,7 +75,7 @@ struct QsHarness : HarnessBase {
 		r = Ref{};
 		pending().reset();
 	}
-	enum { ONLINE, OFFLINE, QS, AWAIT, RUN };
+	enum { ONLINE, OFFLINE, QS, AWAIT, RUN, REAWAIT };
 	static uint32_t mk(uint32_t k, uint32_t a) { return k | a << 8; }
 	void ops(std::vector<uint32_t> &out) {
 		for(uint32_t i = 0; i < (uint32_t)NA; i++) {
@@ -83,10 +85,11 @@ struct QsHarness : HarnessBase {
 			out.push_back(mk(QS, i));
 			out.push_back(mk(OFFLINE, i));
 			if(r.nused[i] < NN) out.push_back(mk(AWAIT, i));
+			if(reuse && !r.reused[i]) for(int k = 0; k < r.nused[i]; k++) if(r.pending[i][k] == 2) { out.push_back(mk(REAWAIT, i)); break; }
 			out.push_back(mk(RUN, i));
 		}
 	}
-	std::string show_class(uint32_t op) { static const char *nm[] = {"online", "offline", "quiescent_state", "await_barrier", "run"}; return std::string("qs.") + nm[op & 0xff]; }
+	std::string show_class(uint32_t op) { static const char *nm[] = {"online", "offline", "quiescent_state", "await_barrier", "run", "await_barrier[node reused after its callback]"}; return std::string("qs.") + nm[op & 0xff]; }
 	std::string show(uint32_t op) { return show_class(op) + "(a" + std::to_string(op >> 8) + ")"; }
 	void covered(int x) { for(int i = 0; i < MAXA; i++) for(int k = 0; k < MAXN; k++) r.need[i][k] &= ~(1u << x); }
 	void apply(uint32_t op) {
@@ -104,6 +107,16 @@ struct QsHarness : HarnessBase {
 			Node *nd = new(w.nodes[i][n]) Node(); nd->agent = i; nd->idx = n; nd->on_grace_period = &on_grace;
 			unsigned char mask = 0; for(int x = 0; x < NA; x++) if(r.online[x]) mask |= 1u << x;
 			r.need[i][n] = mask; r.pending[i][n] = 1;
+			agent(i).await_barrier(nd); break;
+		}
+		case REAWAIT: {
+			// "once the callback starts the library no longer touches its node": the owner may hand the very same object
+			// (not re-constructed: exactly the bytes the library left behind) to await_barrier() again
+			int n = 0; while(r.pending[i][n] != 2) n++;
+			AUNPOISON(w.nodes[i][n], sizeof(Node));
+			Node *nd = &node(i, n);
+			unsigned char mask = 0; for(int x = 0; x < NA; x++) if(r.online[x]) mask |= 1u << x;
+			r.need[i][n] = mask; r.pending[i][n] = 1; r.reused[i] = 1;
 			agent(i).await_barrier(nd); break;
 		}
 		case RUN: r.running = i; agent(i).run(); r.running = -1; break;
@@ -159,6 +172,9 @@ static std::vector<Instance> instances(const std::string &tier) {
 	add(2, 3, th ? 16 : 14);
 	add(3, 1, th ? 15 : 13);
 	add(3, 2, th ? 14 : 12);
+	// fired nodes handed back to await_barrier() unchanged
+	{ BfsOptions o; o.max_depth = th ? 14 : 12; v.push_back(bfs_instance<QsHarness>("qs-seq-A1-N3-reuse-D" + std::to_string(o.max_depth), o, 1, 3, true)); }
+	{ BfsOptions o; o.max_depth = th ? 12 : 10; v.push_back(bfs_instance<QsHarness>("qs-seq-A2-N2-reuse-D" + std::to_string(o.max_depth), o, 2, 2, true)); }
 	return v;
 }
 int main(int argc, char **argv) { return harness_main(argc, argv, instances); }
